@@ -50,6 +50,9 @@ def roots(ctx, m):
                 out.append(f)
             if f.kind == "Fn" and "::agents::common::" in f.path:
                 out.append(f)
+            # constructing the environment and the agents is part of "a simulation as a function of seed and parameters"
+            if f.name == "new" and f.pub and ("::agents::" in f.path or (f.impl_adt or "").split("::")[-1] in ("Env", "MarketEnv")):
+                out.append(f)
         if f.crate.name == "bourse":
             if f.name in ("step", "new") and (f.impl_adt or "").split("::")[-1] in ("StepEnv", "StepEnvNumpy"):
                 out.append(f)
